@@ -240,7 +240,8 @@ type NodeShape struct {
 // nodeShapes is frozen from parser/parser.go (reviewed). The fixed-arity producers are
 // cross-checked against the grammar table by checkShapeTable.
 var nodeShapes = map[string]NodeShape{
-	"EOF": {0, 0, true}, "string": {0, 0, true}, "number": {0, 0, true},
+	exprKind: {0, -1, true},
+	"EOF":    {0, 0, true}, "string": {0, 0, true}, "number": {0, 0, true},
 	"identifier": {0, -1, true},
 	"statements": {0, -1, false}, "funccall": {0, -1, false}, "compaccess": {1, 1, false},
 	"list": {0, -1, true}, "map": {0, -1, true}, "params": {0, -1, false}, "guard": {1, 1, false},
@@ -258,6 +259,79 @@ var nodeShapes = map[string]NodeShape{
 	"if": {2, -1, true}, "loop": {2, 2, true}, "break": {0, 0, true}, "continue": {0, 0, true},
 	"try": {1, -1, true}, "except": {1, -1, true}, "otherwise": {1, 1, true}, "finally": {1, 1, true},
 	"mutex": {2, 2, true},
+}
+
+// exprKind is the pseudo kind of "any node returned by the parser's run()": instanced from a
+// token, unknown number of children.
+const exprKind = "<expr>"
+
+// childKinds: the node kinds a child at position pos (-1 = any position) of a node of the
+// given kind can have in a tree returned by the parser (frozen from parser/parser.go, reviewed).
+func childKinds(kind string, pos int) []string {
+	e := []string{exprKind}
+	switch kind {
+	case "if":
+		if pos >= 0 && pos%2 == 0 {
+			return []string{"guard"}
+		} else if pos >= 0 {
+			return []string{"statements"}
+		}
+		return []string{"guard", "statements"}
+	case "guard":
+		return []string{exprKind, "true"} // the else branch holds a `true` node without token
+	case "loop":
+		if pos == 0 {
+			return []string{"guard", "in"}
+		} else if pos == 1 {
+			return []string{"statements"}
+		}
+		return []string{"guard", "in", "statements"}
+	case "try":
+		if pos == 0 {
+			return []string{"statements"}
+		} else if pos > 0 {
+			return []string{"except", "otherwise", "finally"}
+		}
+		return []string{"statements", "except", "otherwise", "finally"}
+	case "except":
+		return []string{"string", "as", "identifier", "statements"}
+	case "otherwise", "finally":
+		return []string{"statements"}
+	case "as":
+		return []string{"identifier"}
+	case "function":
+		if pos == 0 {
+			return []string{"identifier", "params"}
+		}
+		return []string{"identifier", "params", "statements"}
+	case "mutex":
+		if pos == 0 {
+			return []string{"identifier"}
+		} else if pos == 1 {
+			return []string{"statements"}
+		}
+		return []string{"identifier", "statements"}
+	case "import":
+		if pos == 0 {
+			return []string{"string"}
+		} else if pos == 1 {
+			return []string{"identifier"}
+		}
+		return []string{"string", "identifier"}
+	case "sink":
+		if pos == 0 {
+			return []string{"identifier"}
+		}
+		return []string{"identifier", exprKind, "statements"}
+	case "identifier":
+		return []string{"identifier", "funccall", "compaccess"}
+	case "statements", "funccall", "list", "map", "params", "compaccess", "return", "let":
+		return e
+	}
+	if sh, ok := nodeShapes[kind]; ok && sh.Max != 0 {
+		return e // operators and sink attributes: operands are expressions
+	}
+	return nil
 }
 
 // checkShapeTable cross-checks the shape table against the grammar: every node kind of the
